@@ -9,7 +9,7 @@ CLI_TARGET = os.path.join(vf.BUILD, "cli-target")
 LANG_ARGS = {"rust": ["--generate-all"], "c": [], "markdown": [], "moonbit": [], "cpp": [], "go": [], "d": [],
              "csharp": ["--runtime", "mono"]}
 TIMEOUT = 90
-MAX_BYTES = 3 << 20      # worlds whose bindings are larger are skipped (counted): the byte-list model would dominate the run time
+MAX_BYTES = 1 << 20      # worlds whose bindings are larger are skipped (counted): the byte-list model would dominate the run time
 ENV = {"RUST_BACKTRACE": "0", "RUST_LIB_BACKTRACE": "0", "RUST_LOG": "off"}
 
 
@@ -42,13 +42,14 @@ def run_cli(exe, args, cwd):
     return p.returncode, p.stderr.decode("utf-8", "replace")
 
 
-def generate(exe, lang, wit_text, d):
-    """Write the world to d/w.wit and generate into d/out.  Returns (ok, ordered names, {name: bytes}, stderr)."""
+def generate(exe, lang, wit_text, d, fresh=True):
+    """Write the world to d/w.wit and generate into d/out (emptied first when `fresh`, otherwise on top of
+    what is there).  Returns (ok, ordered names, {name: bytes}, stderr)."""
     os.makedirs(d, exist_ok=True)
     with open(os.path.join(d, "w.wit"), "w") as f:
         f.write(wit_text)
     out = os.path.join(d, "out")
-    if os.path.exists(out):
+    if fresh and os.path.exists(out):
         shutil.rmtree(out)
     rc, err = run_cli(exe, [lang] + LANG_ARGS.get(lang, []) + ["w.wit", "--out-dir", "out"], d)
     if rc != 0:
@@ -61,6 +62,28 @@ def generate(exe, lang, wit_text, d):
         with open(os.path.join(out, n), "rb") as f:
             files[n] = f.read()
     return True, names, files, err
+
+
+def snapshot(out):
+    """{relative path: bytes} of every file below out."""
+    disk = {}
+    for dp, _, fns in os.walk(out):
+        for fn in fns:
+            p = os.path.join(dp, fn)
+            with open(p, "rb") as f:
+                disk[os.path.relpath(p, out)] = f.read()
+    return disk
+
+
+def restore(out, disk):
+    if os.path.exists(out):
+        shutil.rmtree(out)
+    os.makedirs(out)
+    for n, b in disk.items():
+        p = os.path.join(out, n)
+        os.makedirs(os.path.dirname(p), exist_ok=True)
+        with open(p, "wb") as f:
+            f.write(b)
 
 
 def tree_state(root):
@@ -208,7 +231,9 @@ def apply_pert(p, orig):
             i += 1
         return new[:i] + b"\t" + new[i:], "diff"
     if k == "append_newline":
-        return orig + b"\n", "diff"
+        # after a complete last line this adds an empty line; after an unterminated last line it only
+        # terminates it (the code calls that a line-ending difference, the property is silent: tie only)
+        return orig + b"\n", ("diff" if orig == b"" or orig.endswith(b"\n") else None)
     if k == "strip_final_newline":
         if orig.endswith(b"\n"):
             return orig[:-1], None          # the code calls this a line-ending difference; the property is silent: tie only
@@ -231,18 +256,12 @@ def apply_pert(p, orig):
     raise ValueError("unknown perturbation " + k)
 
 
-def materialize(out_dir, names, files, perts):
-    """Rewrite out_dir to pristine, then apply the perturbations.  Returns {name: expect} for perturbed names
-    and the resulting per-file state {name: bytes | None}."""
-    if os.path.exists(out_dir):
-        shutil.rmtree(out_dir)
-    state = {}
-    for n in names:
-        p = os.path.join(out_dir, n)
-        os.makedirs(os.path.dirname(p), exist_ok=True)
-        with open(p, "wb") as f:
-            f.write(files[n])
-        state[n] = files[n]
+def materialize(out_dir, names, files, perts, disk=None):
+    """Rewrite out_dir to the state right after generation (`disk`: every file that was there, generated
+    or not), then apply the perturbations.  Returns {name: expect} for perturbed names and the resulting
+    per-file state {name: bytes | None}."""
+    restore(out_dir, disk if disk is not None else files)
+    state = {n: files[n] for n in names}
     expect = {}
     for pt in perts:
         if pt["kind"] == "extra_file":
